@@ -10,6 +10,7 @@ CONSTANTS
  Behav <- BehMixed
  Cancels = FALSE
  Raises = TRUE
+ Misbehaves = FALSE
  ShieldShared = TRUE
 INVARIANT Inv_C04
 INVARIANT Inv_C09
